@@ -141,14 +141,9 @@ def state_key(case):
 
 def loose_eq(a, b):
     a, b = py(a), py(b)
-    if R.eq(a, b):
-        return True
-    if str(a) == str(b):
-        return True
-    try:
-        return float(a) == float(b)
-    except Exception:
-        return False
+    # (earlier versions of this check accepted a stringified member label - ('10', 'a') for (10, 'a') - "up to str()": the i-th entry must BE the
+    # combination of member labels, a label of another type does not find the element again)
+    return R.eq(a, b) and isinstance(a, str) == isinstance(b, str)
 
 
 def check_layout(got, layout, src, what, check_pos=True):
@@ -289,6 +284,21 @@ def check(case):
             return bad(m)
         if isinstance(got, DimArray) and any(isinstance(ax, MultiAxis) for ax in got.axes):
             return bad("unflatten left a grouped axis")
+        # the restored array is edited in place (first label of the first member axis): the flattened array it came from is another array -
+        # its grouped labels and what a second unflatten restores stay what they were
+        d0 = sub[0]
+        lab0 = ra.labels[dims.index(d0)]
+        if lab0:
+            newl = D.EXTRA[s["kinds"][dims.index(d0)]]
+            e = call(lambda: got.axes[d0].__setitem__(0, newl))
+            if isinstance(e, Raised):
+                return bad("relabelling the restored array in place raised {}".format(e), klass="unexpected-exception")
+            if common.snap(f) != fsnap:
+                return bad("relabelling the array returned by unflatten in place changed the flattened array it came from")
+            again = call(f.unflatten)
+            m = check_layout(again, layout, ra, "second unflatten, after the first restored array was relabelled in place ({}[0] = {!r})".format(d0, newl))
+            if m:
+                return bad(m)
         return ok("unflatten", len(sub) >= 2)
     if op == "reshape":
         src = a
